@@ -59,6 +59,10 @@ type TimedOpts struct {
 	// single-use subscription - after the library's last look at the pool, before the listener exists, so that no
 	// notification is sent for it (the others receive it by gossip within one latency).
 	LandOnSubscribePct int
+	// RightAfterSubscribePct: chance that a transaction reaches the speaker's pool a microsecond to a millisecond AFTER it
+	// has registered its subscription (its first timer has just expired, a shade before the minimum block time when the
+	// round-trip compensation shortened it): the notification is due and must produce the proposal (seeded change C16n)
+	RightAfterSubscribePct int
 	// SlowApp: identities whose application takes up to SlowLag to call Reset after a block.
 	SlowApp map[int]bool
 	SlowLag time.Duration
@@ -101,11 +105,28 @@ func RunTimed(w *World, o TimedOpts) *Timed {
 	t := &Timed{W: w, O: o, resetAt: map[*Node]time.Time{}, nextSync: map[*Node]time.Time{}, supplying: map[*Node]map[vt.H]bool{}}
 	w.Timed = true
 	w.MaxLat = o.MaxLat
-	if o.LandOnSubscribePct > 0 {
+	if o.LandOnSubscribePct > 0 || o.RightAfterSubscribePct > 0 {
 		w.SubHook = func(n *Node) {
 			// (only the speaker's subscription: a backup subscribes at its first timeout, and a transaction appearing
 			// there races the other backups' first timeouts - the boundary at which the synchrony premise does not hold)
-			if !n.D.IsPrimary() || t.r("landonsub", 100) >= t.O.LandOnSubscribePct {
+			if !n.D.IsPrimary() {
+				return
+			}
+			if t.O.RightAfterSubscribePct > 0 && t.r("rightaftersub", 100) < t.O.RightAfterSubscribePct {
+				tx := w.NewTx(false)
+				now := w.Clock.Sub(w.Cfg.Epoch)
+				delay := []time.Duration{time.Microsecond, 10 * time.Microsecond, 100 * time.Microsecond, time.Millisecond}[t.r("rightafterdelay", 4)]
+				w.Stat("tx_right_after_subscription")
+				w.act("tx %x will reach the pool of %d %s after it subscribed", uint64(tx), n.ID, delay)
+				t.O.Plan = append(t.O.Plan, Sched{At: now + delay, Kind: "tx", Tx: tx, To: []int{n.ID}, Split: true})
+				for _, o := range w.Nodes {
+					if o != nil && o != n {
+						t.O.Plan = append(t.O.Plan, Sched{At: now + delay + time.Duration(t.r("gossiplat", 21))*t.O.MaxLat/20, Kind: "tx", Tx: tx, To: []int{o.ID}, Split: true})
+					}
+				}
+				return
+			}
+			if t.r("landonsub", 100) >= t.O.LandOnSubscribePct {
 				return
 			}
 			tx := w.NewTx(false)
